@@ -481,6 +481,8 @@ def signature(case, r, p):
     if p[0] in ("followup", "bincopy", "sercopy", "modify") and ({"exch:phase-related", "exch:rate-related"} & set(case["feat"])) \
             and "column m_" in p[1] and "X" in p[1]:
         return "exchange-tied-to-phase-followup"
+    if p[0] in ("followup", "modify") and "ss:nonideal" in case["feat"] and "column s_" in p[1]:
+        return "nonideal-solid-solution-followup"
     if p[0] == "icopy" and case["db"] == "pitzer.dat" and "copy constructor" in p[1]:
         return "copy-constructor-pitzer"
     return None
@@ -707,7 +709,7 @@ MANIFEST = dict(
           "convergence_tolerance 1e-12; states with KINETICS are compared at 1e-4 (adaptive integrator); a SOLUTION_MODIFY that restores "
           "totals/H/O/cb is applied to the restored state. Departures with a known signature are routed through ctx.finding: isotope-* "
           "(4 keys), gascomp-p_read-nan, gas-phase-first-step-lag, copy-constructor-pitzer, raw-text-14-digits-pH, "
-          "exchange-on-empty-phase-two-cycles, exchange-tied-to-phase-followup. Partial: print/parse of one value (14 digits) is "
+          "exchange-on-empty-phase-two-cycles, exchange-tied-to-phase-followup, nonideal-solid-solution-followup. Partial: print/parse of one value (14 digits) is "
           "the hypothesis Sys.ValOk, exercised not proved; the record model is flat per class (a nested block is one field whose norm is the "
           "child's cycle); continuation lines of name/value blocks whose name equals an option (e.g. element La in an exchanger's totals) are "
           "outside the model; Serialize/Deserialize index sequences are compared dynamically only."),
